@@ -93,6 +93,18 @@ def rules(ctx, tier):
                     m, sorted(cls), site_where(es[0].site)), site_where(es[0].site))
     r.need(2, "modules writing log / snapshot files")
     out.append(r.finish())
+
+    # versions are never reused across restarts: the version the next operation gets is above everything persisted,
+    # including a snapshot whose log has been pruned to nothing
+    from . import c02
+    from .base import share_rule
+    x = share_rule(ctx, tier, c02, "R7", "R7",
+                   "after replay the next version is above the maximum of the snapshot version and every record seen "
+                   "(shared with C02-R7)",
+                   "the replayer forgets the snapshot's version when the log is empty: version 1 is handed out again, the "
+                   "record is written, acknowledged, and skipped as 'already checkpointed' by every later open")
+    if x is not None:
+        out.append(x)
     return out
 
 
